@@ -127,8 +127,10 @@ PROPS = {
                 "non-trivial = document of at least 8 bytes; distinct by case text",
         "theorems_note": "Props/C01.v: simulation theorem (every concrete run under every schedule/chunk size is an admissible abstract "
                          "run on the source's stream), chunking independence for answer-insensitive programs, instance for the SWAR "
-                         "scanner; parser-level insensitivity of the DIMACS programs is validated by the pa correspondence stream, "
-                         "AIGER/BTOR2 by the implementation-only oracle (partial)",
+                         "scanner; whole DIMACS / solver-log parsers: every admissible run finishes and all agree, hence every concrete run "
+                         "returns the value of the simple run (C01_dimacs_any_chunking, C01_log_any_chunking); AIGER aag/aig programs: "
+                         "answer-insensitivity proved (PDet_parse_aag/aig), safety not yet (partial); all modelled programs are validated by "
+                         "the pa correspondence stream; BTOR2 by the implementation-only oracle (partial)",
         "assumes": ["honest sources (Read contract kept), chunk size >= 1, sizes < 2^62"],
     },
     "C14": {
